@@ -20,7 +20,7 @@ LIFE = {
     "C05": dict(focus=["Overlap", "Live"], models=["overlap", "overlapc"], tmodels=["overlap3", "restart", "t_overlap2", "t_restart3"], fams=["overlap", "overlap3", "base"],
                 crashes=(0, 1, 1), wf=0, rf=0),
     "C06": dict(live=["live"], models=["base_conf", "faults"], tmodels=["base_exp", "base_tot", "t_faults2"], fams=["base", "amtless", "other", "overlap", "twohash"],
-                crashes=(0,), wf=1, rf=1, extra=["garbage", "class-raw"]),
+                crashes=(0,), wf=1, rf=1, extra=["garbage", "class-raw", "e2e_burst"]),
     "C07": dict(models=["base_conf", "base_exp", "base_tot", "base_amtless"], tmodels=["overlap"], fams=["base", "amtless"],
                 crashes=(0,), wf=0, rf=0),
     "C08": dict(extra=["wait_timeout"], focus=["Overlap", "Live"], models=["overlap", "faults", "restart"], tmodels=["t_overlap2", "t_faults2"], fams=["overlap", "base"],
